@@ -216,6 +216,9 @@ PARTNERED = [("B", 2, True, False), ("B", 1, False, False), ("F", 1)]
 def shards(tier):
     out = []
     out += P.partner_shards(PARTNERS, [0, 1, 3, 9, 40, "alt"])
+    for byte in (0x00, 0x5A, 0xFE):
+        for n in (2, 3):
+            out.append(("collision", byte, n))
     cfgs = slice_a_configs(tier)
     for i, c in enumerate(cfgs):
         n = len(c["pre"])
@@ -241,7 +244,37 @@ def shards(tier):
     return out
 
 
+def run_collision(shard):
+    """Slice B again with another data byte in the framing-error frame that several simultaneous answers produce."""
+    from dalimc.core.runner import jsonable
+    _, byte, n = shard
+    agg = new_result()
+    old = G.COLLISION_BYTE
+    G.COLLISION_BYTE = byte
+    try:
+        for sub in (("B", n, False, False), ("B", n, True, False), ("B", n, False, True)):
+            r = run_shard(sub)
+            for k in ("evaluations", "states", "transitions", "traces", "distinct_count"):
+                agg[k] += r[k]
+            agg["distinct"] |= r["distinct"]
+            for v in r["violations"]:
+                v["key"] += ":collision-byte"
+                v["message"] = f"[several units answering at once reported as a framing error with data byte {byte:#04x}] " + v["message"]
+                v["case"] = {"__shard__": jsonable(shard)}
+                if not any(x["key"] == v["key"] for x in agg["violations"]):
+                    agg["violations"].append(v)
+            for k, c in r["observations"].items():
+                agg["observations"][k] = agg["observations"].get(k, 0) + c
+    finally:
+        G.COLLISION_BYTE = old
+    agg["distinct"].add(("collision", byte, n))
+    sample(agg, {"collision_data_byte": byte, "units": n})
+    return agg
+
+
 def run_shard(shard):
+    if shard[0] == "collision":
+        return run_collision(shard)
     if shard[0] == "partnered":
         import sys
         return P.run_partnered(sys.modules[__name__], shard, PARTNERS, PARTNERED)
